@@ -48,7 +48,7 @@ def evidence_table():
     return "\n".join(out)
 
 def seed_stats():
-    w = {1: [0, 0, 0], 2: [0, 0, 0]}
+    w = {1: [0, 0, 0], 2: [0, 0, 0], 3: [0, 0, 0]}
     for d in sorted(glob.glob(os.path.join(root, "seeded", "*"))):
         mp = os.path.join(d, "meta.json")
         if not os.path.exists(mp):
@@ -56,16 +56,19 @@ def seed_stats():
         m = json.load(open(mp))
         pid, k = os.path.basename(d).split("-")
         k = int(k)
-        wave = 1 if (k <= 3 or (pid == "C01" and k <= 4)) else 2
+        off = 1 if pid == "C01" else 0
+        wave = 1 if k <= 3 + off else (2 if k <= 6 + off else 3)
         c = m.get("confirmed_by_main_session", {})
         w[wave][0] += 1
         if "first missed" in str(c.get("check_result", "")).lower():
             w[wave][1] += 1
         if not c.get("caught_by_registered_check"):
             w[wave][2] += 1
-    return ("Counts (generated from `seeded/*/meta.json`): first wave %d changes, %d caught by the check as it stood, %d caught after strengthening, %d not caught by the property's own check; "
-            "second wave %d changes, %d caught as it stood, %d after strengthening, %d not caught by the property's own check." % (
-                w[1][0], w[1][0] - w[1][1] - w[1][2] + 0, w[1][1], w[1][2], w[2][0], w[2][0] - w[2][1] - w[2][2], w[2][1], w[2][2]))
+    parts = []
+    for i, name in ((1, "first"), (2, "second"), (3, "third (six properties only, last hours; misses were not all followed up)")):
+        parts.append("%s wave %d changes, %d caught by the check as it stood, %d caught after strengthening, %d not caught by the property's own check" % (
+            name, w[i][0], w[i][0] - w[i][1] - w[i][2], w[i][1], w[i][2]))
+    return "Counts (generated from `seeded/*/meta.json`): " + "; ".join(parts) + "."
 
 def replace(doc, name, body):
     pat = re.compile(r"(<!-- BEGIN %s -->\n)(.*?)(<!-- END %s -->)" % (name, name), re.S)
